@@ -75,7 +75,7 @@ CLAIMS = {
                   'dominating upper-bound guard',
         text='Decides that no loop, pipeline or allocation reachable from verify is bounded by a numeric proof field lacking a '
              'validated upper bound that precedes it, that the only recursion is the tabled Merkle walk, and that generated '
-             'evaluators are loop-free. Actual time/memory and external-crate costs are not decided. Added: an upper bound validates a loop count / allocation size only if it is <= 2^24; the upper-bound conjuncts of the configuration statement are re-established as premises (C17.premise). Not decided: whether a bound written over a sub-slice covers every element (DESIGN 13.6, C17e).',
+             'evaluators are loop-free. Actual time/memory and external-crate costs are not decided. Added: an upper bound validates a loop count / allocation size only if it is <= 2^24; the upper-bound conjuncts of the configuration statement are re-established as premises (C17.premise). A closed sub-slice of a configuration vector must end at its validated length (C17.premise|subslice, DESIGN 13.6).',
         ref='4 C17'),
     'C08': dict(
         technique='transcript event automaton: NFA abstraction of the accepting paths of verify::<Layout> (callees inlined) '
